@@ -351,6 +351,20 @@ def stage_pure(ctx, suites, n_quick=3000, n_thorough=60000, widen=4):
     """Implementation vs extracted model vs spec on generated inputs (DESIGN 5.1)."""
     n = ctx.q(n_quick, n_thorough)
     r = _pure_once(ctx, suites, ctx.seed, n, "main")
+    if "crash" in r and len(suites) > 1:
+        # one suite crashing on the changed implementation must not hide what the other suites have to report:
+        # run every suite on its own and merge
+        merged = {"generated": {}, "functions": {}, "mismatches": 0, "specfails": 0, "widened_cases": 0, "crashed_suites": []}
+        for su in suites:
+            rep = stage_pure(ctx, [su], n_quick=n_quick, n_thorough=n_thorough, widen=widen)
+            if "error" in rep:
+                merged["crashed_suites"].append(su)
+                continue
+            merged["generated"].update(rep["generated"])
+            merged["functions"].update(rep["functions"])
+            for k in ("mismatches", "specfails", "widened_cases"):
+                merged[k] += rep[k]
+        return merged
     if "crash" in r:
         ctx.add_violation("purediff crashed on the implementation: " + r["crash"][-1500:], {"kind": "crash", "log": r["crash"][-4000:]})
         return {"error": r["crash"][-500:]}
@@ -417,11 +431,17 @@ def viol_context(path, c, ln, vrid=None, prop=None):
     outst, reqs = {}, {}
     rid_of_viol = None
     mqconn = {}
+    accreq, getgranted = {}, {}
     pendres = {}
     for x in lines[:ln]:
         g = x.split("\t")
         # a call/auth answered with a resource response takes a direct subscription on that resource while the
         # client's request is still outstanding
+        if g[0] == "MQREQ" and len(g) > 5 and g[2] == "access" and g[5] == c:
+            accreq[g[1]] = g[3]
+        elif g[0] == "MQRESP" and len(g) > 2 and g[1] in accreq:
+            # latest access answer for this connection and resource: did it grant get?
+            getgranted[accreq.pop(g[1])] = (g[2] == "access" and len(g) > 3 and g[3] == "1")
         if g[0] == "MQREQ" and len(g) > 5 and g[2] in ("call", "auth"):
             mqconn[g[1]] = g[5]
         elif g[0] == "MQRESP" and len(g) > 3 and g[2] == "resource" and mqconn.get(g[1]) == c:
@@ -440,9 +460,10 @@ def viol_context(path, c, ln, vrid=None, prop=None):
                 outst[rid] = outst.get(rid, 0) - 1
             elif k == "unsubscribe" and g[3] == "ok" and outst.get(rid, 0) > 0:
                 ctx.append("unsub-while-pending:" + rid)
-            if len(g) > 5 and g[3] == "okrid" and ("E~%s~" % g[4]) in g[5]:
-                # a call/auth/new resource response whose resource failed to load: the gateway keeps a direct
-                # subscription on the error placeholder (recorded finding KF-ERROR-SUBSCRIPTION)
+            if len(g) > 5 and g[3] == "okrid" and ("E~%s~" % g[4]) in g[5] and getgranted.get(g[4]):
+                # a call/auth/new resource response whose resource failed to load although get was granted: the gateway
+                # keeps a direct subscription on the error placeholder (recorded finding KF-ERROR-SUBSCRIPTION). An entry
+                # that is the access refusal itself is not that finding: there the gateway must release the subscription
                 ctx.append("error-placeholder:" + g[4])
         elif g[0] == "EV" and len(g) > 3 and g[1] == c and g[3] in ("delete", "unsub") and outst.get(g[2], 0) > 0:
             # ... or a delete / unsubscribe event reached the client while its request for that id was outstanding
